@@ -124,6 +124,56 @@ int main(int argc, char** argv) {
     }
     op_checkall(); ops = 0;
   }
+  if (scenario && !strcmp(scenario, "arena96")) {
+    /* an exclusive arena of 96 blocks (two bitmap fields): single-block objects up to block 61, then a four-block object across the field
+       boundary (62-65) and a three-block one; everything is freed again -- the arena can be allocated completely (C14: nothing stays reserved) */
+    size_t total = ((size_t)96 << 25) + ((size_t)64 << 20);
+    uint8_t* raw = (uint8_t*)syscall(SYS_mmap, NULL, total, PROT_READ | PROT_WRITE, MAP_PRIVATE | MAP_ANONYMOUS | MAP_NORESERVE, -1, 0);
+    if (!((long)raw < 0 && (long)raw > -4096) && nars < MAXARENAS) {
+#if defined(VF_SHIM)
+      vf_os_event("mmap", raw, total, "RW", 1, 0);
+#endif
+      uint8_t* start = (uint8_t*)(((uintptr_t)raw + ((size_t)32 << 20) - 1) & ~(((uintptr_t)32 << 20) - 1));
+      size_t given = (size_t)96 << 25;
+      mi_arena_id_t aid = 0;
+      vf_in_call = 1; bool ok = mi_manage_os_memory_ex(start, given, true, false, true, -1, true, &aid); vf_in_call = 0;
+      if (ok) {
+        size_t asz = 0; void* ast = mi_arena_area(aid, &asz);
+        ar_t* ar = &ars[nars++]; ar->aid = aid; ar->id = nars; ar->start = ast; ar->size = asz; ar->excl = 1;
+        vf_logf("{\"e\":\"arena\",\"id\":%d,\"a\":[%ld,%ld],\"len\":[%ld,%ld],\"ga\":[%ld,%ld],\"glen\":[%ld,%ld],\"excl\":true}", ar->id,
+                VF_HI(ast), VF_LO(ast), VF_HI(asz), VF_LO(asz), VF_HI(start), VF_LO(start), VF_HI(given), VF_LO(given));
+        vf_log_line_end();
+        int hi = heap_new_in_arena_op(nars - 1);
+        if (hi > 0) {
+          for (int round = 0; round < 2; round++) {
+            int mine[80]; int nm = 0;
+            for (int k = 0; k < 62; k++) { int s_ = op_alloc_ex(A_heap_malloc, (size_t)20 << 20, 0, 0, hi, 0); if (s_ >= 0) mine[nm++] = s_; }
+            int s4 = op_alloc_ex(A_heap_malloc, (size_t)100 << 20, 0, 0, hi, 0); if (s4 >= 0) mine[nm++] = s4;
+            int s3 = op_alloc_ex(A_heap_malloc, (size_t)70 << 20, 0, 0, hi, 0); if (s3 >= 0) mine[nm++] = s3;
+            op_checkall();
+            for (int k = (round ? nm - 1 : 0); k >= 0 && k < nm; k += (round ? -1 : 1)) op_free_slot(mine[k], FR_free);
+            { ret_t r; memset(&r, 0, sizeof(r)); log_call_begin("heap_collect", hps[hi].id, 0, 1, 0, 0, 0, "ok", 0, 0); log_obs(-1, -1, 0); log_call_end();
+              mi_heap_collect(hps[hi].hp, true); log_ret_begin("heap_collect", &r); log_obs(-1, -1, 0); log_ret_end(); }
+            /* which blocks are still in use; then refill with single-block objects */
+            mi_arena_t* arena = mi_arena_from_index(mi_arena_id_index(aid));
+            size_t nblocks = arena->block_count;
+            vf_logf("{\"e\":\"refill\",\"blocks\":%zu,\"inuse\":[", nblocks);
+            int first = 1;
+            for (size_t i = 0; i < nblocks; i++) if (_mi_bitmap_is_claimed(arena->blocks_inuse, arena->field_count, 1, mi_bitmap_index_create(i / 64, i % 64))) { vf_logf("%s%zu", first ? "" : ",", i); first = 0; }
+            vf_logf("],\"areas\":[");
+            int got = 0; int saved = vf_log_enabled; vf_log_enabled = 0;
+            void* ps[128];
+            while (got < 128) { void* p = mi_heap_malloc(hps[hi].hp, (size_t)20 << 20); if (!p) break; ps[got++] = p; }
+            for (int i = 0; i < got; i++) mi_free(ps[i]);
+            mi_heap_collect(hps[hi].hp, true);
+            vf_log_enabled = saved;
+            vf_logf("],\"got\":%d}", got); vf_log_line_end();
+          }
+        }
+      }
+    }
+    op_checkall(); ops = 0;
+  }
   if (scenario && !strcmp(scenario, "excldel")) {
     /* the only heap bound to an exclusive arena is deleted: its pages cannot go to the unbound backing heap, they are abandoned (whole
        segments: nobody else has pages there); afterwards the default heap allocates the same size classes -- outside the arena (C15) */
